@@ -130,6 +130,11 @@ func TestC04(t *testing.T) {
 			for _, n := range c.scaleSizes([]int{100, 300}, []int{1000, 5000}) {
 				c.c04Program(s, "scale", scaleClosures(n), true, "scale-closures")
 			}
+			c.depthOverride = 12000
+			defer func() { c.depthOverride = 0 }()
+			for _, n := range c.scaleSizes([]int{100, 1000, 1025, 2049, 3000}, []int{4097, 8193}) {
+				c.c04Program(s, "scale", scaleRecursion(n), true, "scale-recursion")
+			}
 		})
 		c.Sub("recursion", func(s *Sub) {
 			if c.Shard != 0 {
